@@ -161,7 +161,12 @@ func genFastReadAny(w *codewriter, rwctx *golang.ReadWriteContext, varname strin
 	case parser.Category_String:
 		genFastReadString(w, pointer, varname)
 	case parser.Category_Binary:
-		genFastReadBinary(w, pointer, varname)
+		if rwctx.TypeName == "string" {
+			// binary as map key: it's a Go string, see generator/golang asKeyCtx
+			genFastReadString(w, pointer, varname)
+		} else {
+			genFastReadBinary(w, pointer, varname)
+		}
 	case parser.Category_Map:
 		genFastReadMap(w, rwctx, varname, depth)
 	case parser.Category_List:
